@@ -131,9 +131,12 @@ class Sedov(ExactSolver):
         self.a_val = 0.25 * self.xg2 * self.gamp1
         self.b_val = self.gpogm
         self.c_val = 0.5 * self.xg2 * self.gamma
-        self.d_val = (self.xg2 * self.gamp1)/(self.xg2*self.gamp1 -
-                                              2.0 * (2.0 + self.geometry *
-                                                     self.gamm1))
+        # d_val is singular when v2 == vstar exactly; the singular solution
+        # type does not use it
+        if self.solution_type != 'singular':
+            self.d_val = (self.xg2 * self.gamp1)/(self.xg2*self.gamp1 -
+                                                  2.0 * (2.0 + self.geometry *
+                                                         self.gamm1))
         self.e_val = 0.5 * (2.0 + self.geometry * self.gamm1)
 
         # Evaluate the energy integrals
